@@ -278,6 +278,27 @@ pub fn run(tier: Tier, seed: u64) -> i32 {
     });
     report.count("adjacent_pair_strings", pair_strings.load(Ordering::Relaxed));
 
+    // (4c) every TRIPLE of printable ASCII characters as a 3-byte string and at the end of a 16-byte string
+    let printable: Vec<u8> = (0x20u8..=0x7E).collect();
+    let triple_strings = AtomicU64::new(0);
+    printable.par_iter().for_each(|&c1| {
+        let mut n = 0u64;
+        let mut long = vec![b'q'; 16];
+        for &c2 in &printable {
+            for &c3 in &printable {
+                let t = [c1, c2, c3];
+                check_fast(&report, std::str::from_utf8(&t).unwrap());
+                long[13] = c1;
+                long[14] = c2;
+                long[15] = c3;
+                check_fast(&report, std::str::from_utf8(&long).unwrap());
+                n += 2;
+            }
+        }
+        triple_strings.fetch_add(n, Ordering::Relaxed);
+    });
+    report.count("triple_strings", triple_strings.load(Ordering::Relaxed));
+
     // (5) ==, cmp, Hash agree with the normalised texts for all pairs of a ~2000 element set
     let mut set: Vec<String> = small.iter().filter(|s| normalize(s).is_ok()).take(1500).cloned().collect();
     for i in 0..500u32 {
@@ -322,7 +343,7 @@ pub fn run(tier: Tier, seed: u64) -> i32 {
         report.require(&format!("class_{name}"));
         report.count(&format!("class_{name}"), classes[i].load(Ordering::Relaxed));
     }
-    let total = pair_strings.load(Ordering::Relaxed) + evals.load(Ordering::Relaxed) + small.len() as u64 + limit_strings.len() as u64 + fills + pair_cases.load(Ordering::Relaxed);
+    let total = triple_strings.load(Ordering::Relaxed) + pair_strings.load(Ordering::Relaxed) + evals.load(Ordering::Relaxed) + small.len() as u64 + limit_strings.len() as u64 + fills + pair_cases.load(Ordering::Relaxed);
     report.set("evaluations", json!(total));
     report.set("distinct_nontrivial", json!(evals.load(Ordering::Relaxed) - classes[0].load(Ordering::Relaxed).min(evals.load(Ordering::Relaxed)) + small.len() as u64));
     report.set("rule", json!("strings are enumerated (every Unicode scalar x every position x every byte length 1..=17; every string of <=5 chars over a 12-symbol alphabet; every multi-byte string of byte length 13..=20 over {a,e-acute,euro,emoji}); all inputs distinct by construction; non-trivial = input that must be rejected, or contains a character that must be changed or is non-letter (everything except all-'a' fills); counted as cases whose expected result is an error plus the small-alphabet set"));
